@@ -1,8 +1,8 @@
 package dom
 
 import (
-	"sort"
 	"fmt"
+	"sort"
 	"strconv"
 	"strings"
 
@@ -12,10 +12,10 @@ import (
 )
 
 type muxDom struct {
-	muxes map[int]*res.Mux
-	next  int
-	seen  []int
-	onreg []string
+	muxes    map[int]*res.Mux
+	next     int
+	seen     []int
+	onreg    []string
 	listened bool
 }
 
